@@ -144,6 +144,22 @@ func checkC07(ctx *Ctx) {
 					fmt.Fprintf(os.Stderr, "siblist %s li=%d after=%q n=%d %q\n", e.Name, li, string(after), n, list)
 				}
 			}
+			// texts made of two pool members joined by a byte that code may use as a key separator
+			// (x, y, x+sep+y, y+sep+x in one list), where the ecosystem accepts them
+			if li%8 == 4 && len(p.Strs) >= 2 {
+				x, y := p.Strs[r.Intn(len(p.Strs))], p.Strs[r.Intn(len(p.Strs))]
+				for _, sep := range []string{",", "|", ":", "/", ";", " ", "\x00"} {
+					for _, t := range []string{x + sep + y, y + sep + x, x + sep + x} {
+						if pr := e.Parse(t); pr.OK && len(list) < n+6 {
+							list = append(list, t)
+						}
+					}
+				}
+				if len(list) > 0 {
+					list = append(list, x, y)
+					n = len(list)
+				}
+			}
 			for len(list) < n {
 				switch {
 				case len(list) > 0 && r.Chance(15):
